@@ -89,6 +89,17 @@ def gen(seed, tier):
             if i % 3 == 0 and tag == "b":
                 del o["O"]      # no observer at all (what an unparsable -O amounts to): still only the distance differs
             cases.append(H("C19-o%d-%s" % (i, tag), o, segs))
+    # the downlink log (-D) is a logging option: with it the table is what it is without it, for frames of every format
+    # (DF18 and the formats the decoder only files by address included)
+    for i in range(n // 2):
+        pool = r.sample(ICAOS, 3)
+        lines = []
+        for _ in range(r.randint(4, 14)):
+            lines.append(g.odd_frame(r.choice([0, 4, 5, 11, 16, 17, 17, 18, 18, 20, 21, 19, 24, r.randint(0, 31)]), r.choice(pool)))
+        core = {"U": 1} if i % 2 else {}
+        segs = [seg(0, lines[:len(lines) // 2]), seg(500, lines[len(lines) // 2:])]
+        cases.append(H("C19-p%dL-a" % i, dict(core), segs))
+        cases.append(H("C19-p%dL-b" % i, dict(core, D=1), segs))
     for i in range(2 * n):
         segs = history(g, lambda a: valid_frame(g, a), junk=0.0)
         cases.append(H("C19-u%d-a" % i, {}, segs))
